@@ -361,6 +361,9 @@ pub fn run(a: &Args) -> i32 {
                 opts.extern_enums.push(name.clone());
             }
         }
+        // (an enum whose value is a variable's default stays generated: the consumer's stand-in enum of this harness
+        // does not have the schema's variants)
+        opts.extern_enums.retain(|e| !doc.ops.iter().any(|o| o.vars.iter().any(|v| v.default.is_some() && v.ty.base() == e)));
         let use_sc_module = !is_corpus && rng.chance(40);
         // some schema printers re-declare the built-in scalars (`scalar ID` …): still a supported input
         let sdl = schema.to_sdl(&RenderKnobs { sdl_builtin_scalars: rng.chance(30), ..RenderKnobs::default() });
